@@ -37,7 +37,7 @@ class Coop:
 
     # ---- called by the controller -----------------------------------------------------------
     def spawn(self, tid, fn):
-        rec = {"sem": threading.Semaphore(0), "state": "new", "result": None, "exc": None, "label": "start"}
+        rec = {"sem": threading.Semaphore(0), "state": "new", "result": None, "exc": None, "label": "start", "waiting": False}
 
         def body():
             _tls.coop = self
@@ -60,27 +60,42 @@ class Coop:
         th.start()
 
     def runnable(self):
-        return [t for t in self.order if self.threads[t]["state"] == "runnable"]
+        """threads that can make progress: not finished and not waiting for a lock that nobody released since"""
+        alive = [t for t in self.order if self.threads[t]["state"] == "runnable"]
+        rn = [t for t in alive if not self.threads[t]["waiting"]]
+        if alive and not rn:
+            raise Deadlock("every live thread waits for a lock: " + ", ".join(f"{t}@{self.threads[t]['label']}" for t in alive))
+        return rn
+
+    def waiting(self, tid):
+        return self.threads[tid]["waiting"]
 
     def step(self, tid):
         """let thread tid run to its next yield point or to completion"""
         rec = self.threads[tid]
         self.current = tid
         self.trace.append((str(tid), rec["label"]))
+        rec["waiting"] = False
         rec["sem"].release()
         if not self.ctrl.acquire(timeout=120):
             import faulthandler
             faulthandler.dump_traceback(all_threads=True)
             raise core.HarnessError(f"managed thread {tid} did not yield within 120 s (blocked outside the scheduler?)")
+        if not rec["waiting"]:
+            # the thread made progress (it may have released a lock): lock waiters may try again
+            for r in self.threads.values():
+                if r is not rec:
+                    r["waiting"] = False
 
     def done(self, tid):
         return self.threads[tid]["state"] == "done"
 
     # ---- called inside managed threads ------------------------------------------------------
-    def yield_point(self, label):
+    def yield_point(self, label, waiting=False):
         tid = _tls.tid
         rec = self.threads[tid]
         rec["label"] = label
+        rec["waiting"] = waiting
         self.ctrl.release()
         rec["sem"].acquire()
 
@@ -93,6 +108,92 @@ def maybe_yield(label):
     c = current_coop()
     if c is not None:
         c.yield_point(label)
+
+
+# ------------------------------------------------------------------------------------------------
+# locks of the library under check: waiting for one is a scheduling point, never a real block
+# ------------------------------------------------------------------------------------------------
+_REAL_LOCK_TYPES = (type(threading.Lock()), type(threading.RLock()))
+
+
+class CoopLock:
+    """drop-in for threading.Lock / RLock: a managed thread that finds the lock taken hands the baton back (marked as
+    waiting) instead of blocking, so a lock held by a suspended thread cannot hang the explorer; unmanaged threads
+    (and the free-running runs) get the real behaviour"""
+
+    def __init__(self, reentrant=False, real=None):
+        self._l = real if real is not None else (threading.RLock() if reentrant else threading.Lock())
+
+    def acquire(self, blocking=True, timeout=-1):
+        c = current_coop()
+        if c is None or not blocking:
+            return self._l.acquire(blocking, timeout)
+        while not self._l.acquire(False):
+            c.yield_point("lock-wait", waiting=True)
+        return True
+
+    def release(self):
+        self._l.release()
+
+    def locked(self):
+        return self._l.locked() if hasattr(self._l, "locked") else False
+
+    def __enter__(self):
+        self.acquire()
+        return self
+
+    def __exit__(self, *a):
+        self.release()
+
+
+class _ThreadingProxy:
+    """stands in for the `threading` module inside the library's modules: Lock / RLock give cooperative locks"""
+
+    def __init__(self, real):
+        self.__dict__["_real"] = real
+
+    def Lock(self):
+        return CoopLock(False)
+
+    def RLock(self):
+        return CoopLock(True)
+
+    def __getattr__(self, name):
+        return getattr(self._real, name)
+
+
+class cooperative_locks:
+    """context manager: every lock the library owns (module globals, created at import or later through its `threading`
+    / `Lock` / `RLock` names) becomes a CoopLock while managed threads run"""
+
+    def __init__(self, package="spatialpandas"):
+        self.package = package
+        self.saved = []
+
+    def __enter__(self):
+        import types
+        for name, mod in list(sys.modules.items()):
+            if mod is None or not (name == self.package or name.startswith(self.package + ".")):
+                continue
+            for k, v in list(vars(mod).items()):
+                new = None
+                if isinstance(v, _REAL_LOCK_TYPES):
+                    new = CoopLock(real=v)
+                elif isinstance(v, types.ModuleType) and v is threading:
+                    new = _ThreadingProxy(threading)
+                elif v is threading.Lock:
+                    new = (lambda: CoopLock(False))
+                elif v is threading.RLock:
+                    new = (lambda: CoopLock(True))
+                if new is not None:
+                    self.saved.append((mod, k, v))
+                    setattr(mod, k, new)
+        return self
+
+    def __exit__(self, *a):
+        for mod, k, v in self.saved:
+            setattr(mod, k, v)
+        self.saved = []
 
 
 # ------------------------------------------------------------------------------------------------
@@ -224,16 +325,16 @@ class ControlledDask:
             enabled = []
             # canonical order: the thread that ran last (non-preemptive default), other running threads in start
             # order, then ready tasks by Dask's own priority (only if a worker slot is free)
-            if last[0] in running:
+            if last[0] in running and not coop.waiting(last[0]):
                 enabled.append(("step", last[0]))
             for k in running:
-                if k != last[0]:
+                if k != last[0] and not coop.waiting(k):
                     enabled.append(("step", k))
             if len(running) < self.workers:
                 for k in ready:
                     enabled.append(("start", k))
             if not enabled:
-                raise Deadlock("no enabled task")
+                raise Deadlock("no enabled task (running tasks wait for locks: %s)" % [str(k)[:40] for k in running])
             c = self.chooser(enabled) if len(enabled) > 1 else 0
             kind, k = enabled[c]
             if kind == "start":
